@@ -9,7 +9,7 @@ THEOREMS = [
     'Ws.closed_unless_escaped', 'Ws.closed_unless_escaped_mw',
     # (state, operation) -> error table, close-code table, error -> close-code mapping
     'Ws.wrong_state_send', 'Ws.wrong_state_recv', 'Ws.wrong_state_accept', 'Ws.send_after_disconnect',
-    'Ws.close_after_closed_silent', 'Ws.close_code_validation_exact', 'Ws.close_invalid', 'Ws.close_sends',
+    'Ws.close_after_closed_silent', 'Ws.close_records_disconnect', 'Ws.close_code_validation_exact', 'Ws.close_invalid', 'Ws.close_sends',
     'Ws.http_error_close_code', 'Ws.unexpected_error_close_code',
     # the invariant and its preservation by every operation, script, handler
     'Ws.run_append', 'Ws.okEvents_snoc', 'Ws.Inv.init', 'Ws.Inv.weaken', 'Ws.Inv.sendOk', 'Ws.Inv.stopPump', 'Ws.send_spec',
@@ -20,13 +20,14 @@ THEOREMS = [
 STATEMENTS = {
     'Ws.emitted_trace_legal': 'for every configuration (spec version, close-reason table, error_close_code, custom error handler script), responder script with per-op catch flags, every sequence of observed disconnect-flag values, inbox, and every position and kind of a failing server send: the events the server accepted form a word of connecting -accept-> open -send*-> open -close-> done (connecting -close-> done is the 403 denial), i.e. <= 1 accept, data only between accept and close, <= 1 close, nothing after close',
     'Ws.emitted_trace_legal_mw': 'the same for _handle_websocket with process_request_ws / process_resource_ws middleware scripts and every routing outcome (responder, unrouted = 404, resource without on_websocket = 405)',
-    'Ws.closed_unless_escaped': 'with the default error handlers: if _handle_websocket returns normally to the server (no exception escapes), the socket state is CLOSED (a close/denial was accepted by the server, a disconnect was received, or a failing send was translated into a disconnect) or the framework had observed the client-disconnect flag',
+    'Ws.closed_unless_escaped': 'with the default error handlers: if _handle_websocket returns normally to the server (no exception escapes), the socket state is CLOSED: a close/denial was accepted by the server, or the client\'s disconnect was received or observed through the pump\'s flag, or a failing send was translated into a disconnect',
     'Ws.closed_unless_escaped_mw': 'the same with middleware scripts and every routing outcome',
     'Ws.wrong_state_send': 'send_* before accept raises OperationNotAllowed, after close/loss raises WebSocketDisconnected(close code); the socket is unchanged and nothing is sent',
     'Ws.wrong_state_recv': 'receive_* before accept raises OperationNotAllowed, after close/loss raises WebSocketDisconnected(close code); nothing is consumed',
     'Ws.wrong_state_accept': 'accept() on a socket that is not in the handshake state, or whose disconnect flag is set, raises OperationNotAllowed and sends nothing',
     'Ws.send_after_disconnect': 'a send on an accepted socket whose pump has seen the disconnect raises WebSocketDisconnected with the client\'s code and hands nothing to the server',
     'Ws.close_after_closed_silent': 'close() on a closed socket or with the disconnect flag set sends nothing',
+    'Ws.close_records_disconnect': 'close() on a not-yet-closed socket whose disconnect flag is set (code c) sends nothing, returns normally and leaves the socket CLOSED with code c, so later send_*/receive_* raise WebSocketDisconnected(c) (the 606f7a8 repair)',
     'Ws.close_code_validation_exact': 'close(code) raises the invalid-close-code ValueError exactly for code < 1000, 1004..1006 and 1015..1999, in every state',
     'Ws.close_sends': 'close() with no code (1000) or a valid code, on a socket not closed and not known lost, with a working send: exactly one close event with that code; the reason is attached iff (a reason was given or the code has a default reason) and the server supports reasons (spec >= 2.3); the state becomes CLOSED with that code',
     'Ws.http_error_close_code': 'HTTPError(s)/HTTPStatus(s) (0 <= s <= 999; an unrouted path is HTTPError 404 -> 3404, a missing responder HTTPError 405 -> 3405) reaching the default handlers on an open socket send exactly one close event with code 3000 + s',
@@ -35,7 +36,7 @@ STATEMENTS = {
 }
 TRUSTED = [
     'the scripted ASGI server of the harness (receive/send callables written from the ASGI WebSocket spec, not falcon.testing) and its fault injection',
-    'asyncio.wait_for(app(...), 2 s) deciding "the session did not terminate"',
+    '"the session did not terminate" is decided by 4000 turns of the event loop without the application task finishing (no wall clock)',
     'C18 (the buffered receiver hands events out FIFO): the model reads the client script in order in both queue modes',
 ]
 ASSUMPTIONS = [
@@ -55,7 +56,8 @@ PARTIAL = ('reason_only_if_supported and payloads_in_order_unchanged are not Lea
            'its timing is C18\'s subject')
 JOBS = {'quick': 4, 'thorough': 16}
 
-CODES = ['n', 'n', '1000', '3001', '4999', '1011', '999', '1005', '1500', 'x', '3000+', 'n+']
+CODES = ['n', 'n', '1000', '3001', '4999', '1011', '999', '1005', '1500', 'x', '3000+', 'n+',
+         '1003', '1004', '1006', '1007', '1014', '1015', '1999', '2000', '0', '-1', '1001']   # incl. every boundary of the validation table
 OPS = (['A000'] * 4 + ['A100', 'A010', 'A110', 'A001'] + ['C' + c for c in CODES] +
        ['St', 'St', 'St', 'Sb', 'Sb', 'Rt', 'Rt', 'Rd', 'Rm', 'Rm', 'H403', 'H404', 'T204', 'X', 'B', 'B'])
 SMALL_OPS = ['A000', 'A100', 'Cn', 'C3001', 'C999', 'St', 'Sb', 'Rt', 'Rd', 'Rm', 'H403', 'X', 'B']
@@ -95,7 +97,7 @@ def gen_random(rnd):
         'mwres': steps(rnd.randint(0, 2), OPS, 0.8) if mw and rnd.random() < 0.6 else [],
         'mw_present': mw, 'script': script, 'custom': custom, 'inbox': inbox, 'starve': starve,
         'fail': rnd.choice([None, None, None, 0, 1, 2, 3, 4]), 'fault': rnd.choice(FAULTS),
-        'err': rnd.choice([1011, 1011, 1011, 4000, 999, 1005]), 'binh': rnd.random() < 0.5,
+        'err': rnd.choice([1011, 1011, 1011, 4000, 999, 1005, 1006, 1007, 1014, 1015, 1999, 2000, 1004, 1003]), 'binh': rnd.random() < 0.5,
         'yields': rnd.randrange(1 << 30),
     }
 
@@ -314,11 +316,18 @@ def run(ctx):
         appmod.WebSocket = Rec
         esc = '-'
         try:
-            await asyncio.wait_for(app(scope, receive, send), 2.0)
-        except asyncio.TimeoutError:
-            esc = 'TIMEOUT'
-        except Exception as e:  # noqa
-            esc = exname(e)
+            # no wall clock: the session is purely loop-driven, so "did not terminate" = still pending after 4000 loop turns
+            task = asyncio.ensure_future(app(scope, receive, send))
+            for _ in range(4000):
+                if task.done():
+                    break
+                await asyncio.sleep(0)
+            if not task.done():
+                esc = 'TIMEOUT'
+                task.cancel()
+                await asyncio.gather(task, return_exceptions=True)
+            elif task.exception() is not None:
+                esc = exname(task.exception())
         finally:
             appmod.WebSocket = saved
         o['esc'] = esc
@@ -415,7 +424,7 @@ def run(ctx):
     def oracle_table(spec, o):
         """(state, operation) -> documented outcome; payloads received unchanged, in order; exactly the expected server events."""
         ver = tuple(map(int, spec['ver'].split('.')))
-        st = 'handshake'; code = None; pump_stopped = False; closed_after_loss = False; finding2 = None; pump_stopped_send = False; finding3 = None
+        st = 'handshake'; code = None; pump_stopped = False; pump_stopped_send = False; finding3 = None
         nxt = 0            # index of the next client event the application will see
         inbox = spec['inbox']
         finding = None
@@ -479,14 +488,6 @@ def run(ctx):
                 if calls: return f'{where}: a receive handed events {[c["r"] for c in calls]} to the server'
                 if st == 'handshake': want = 'ONA'
                 elif st == 'closed': want = f'WSD:{code or 1000}'
-                elif closed_after_loss:
-                    # close() returned normally on a socket whose client had disconnected: the documented outcome is WebSocketDisconnected
-                    if out == 'AE':
-                        finding2 = f'{where}'
-                        continue
-                    if not out.startswith('WSD:'): return f'{where}: after close() on a lost connection got {out}, the documented outcome is WebSocketDisconnected'
-                    st = 'closed'; code = int(out[4:])
-                    continue
                 elif pump_stopped:
                     if out == 'AE':
                         finding = f'{where}'
@@ -520,7 +521,8 @@ def run(ctx):
                 elif not valid_code(cd): want = 'VEI'
                 elif st == 'closed' or lostq:
                     want = 'ok'
-                    if st == 'accepted' and out == 'ok': closed_after_loss = True
+                    if st != 'closed' and out == 'ok':      # the disconnect the pump saw is recorded: later ops raise WebSocketDisconnected(code)
+                        st = 'closed'; code = r['handed']
                 else:
                     err, ok = one_call('websocket.close', True)
                     if err: return err
@@ -538,7 +540,7 @@ def run(ctx):
                 if out != want or calls: return f'{where}: got {out} with events {[c["r"] for c in calls]}, the documented outcome is {want} and nothing sent'
                 if stops and want in ('VEO', 'VEI'): pump_stopped = True
         o['o_state'] = (st, code)
-        return ('FINDING', finding, finding2, finding3) if (finding or finding2 or finding3) else None
+        return ('FINDING', finding, finding3) if (finding or finding3) else None
 
     def oracle_tail(spec, o):
         """what the framework itself does after the scripts: the close that is always sent, its code, what may escape."""
@@ -616,11 +618,8 @@ def run(ctx):
 
     sess = ctx.session('falcon.asgi.App websocket session = Ws model (handleMw)', 'wsdriver')
     F_NAME = 'receive in accepted state delivers the next message'
-    F3_WHAT = 'receive_*() raised AssertionError after a close() whose server send raised: the failed close stopped the pump (max_receive_queue > 0)'
-    F2_NAME = 'receive after close() raises WebSocketDisconnected'
-    F2_WHAT = ('receive_*() raised AssertionError after close() returned on a socket whose client had disconnected: '
-               'close() stopped the pump but left the state ACCEPTED (max_receive_queue > 0)')
     F_WHAT = 'receive_*() raised AssertionError after a rejected close(): the failed close stopped the pump (max_receive_queue > 0)'
+    F3_WHAT = 'receive_*() raised AssertionError after a close() whose server send raised: the failed close stopped the pump (max_receive_queue > 0)'
 
     async def one(spec, origin):
         o = await session(spec)
@@ -638,15 +637,13 @@ def run(ctx):
         ctx.oracle('events sent to the server form a legal ASGI session (<=1 accept, data only while open, <=1 close, nothing after close/loss, reason/headers only if supported)',
                    bad is None, bad, dict(case, observed=seen))
         bad = oracle_table(spec, o) if spec['first'] else None
-        f1 = f2 = f3 = None
+        f1 = f3 = None
         if isinstance(bad, tuple):
-            f1, f2, f3 = bad[1], bad[2], bad[3]; bad = None
+            f1, f3 = bad[1], bad[2]; bad = None
         ctx.oracle(F_NAME, f1 is None, F_WHAT, dict(case, observed=seen, where=f1))
         if f3:
             ctx.oracle(F_NAME, False, F3_WHAT, dict(case, observed=seen, where=f3)); ctx.count('finding_receive_after_close_whose_send_failed')
-        ctx.oracle(F2_NAME, f2 is None, F2_WHAT, dict(case, observed=seen, where=f2))
         if f1: ctx.count('finding_receive_after_rejected_close')
-        if f2: ctx.count('finding_receive_after_close_on_lost_connection')
         ctx.oracle('every operation has its documented outcome for the state it is called in; payloads unchanged and in order',
                    bad is None, bad, dict(case, observed=seen))
         tail_bad = oracle_tail(spec, o) if bad is None else None
@@ -668,7 +665,7 @@ def run(ctx):
 
     async def main():
         rnd = ctx.rng
-        for _ in range(ctx.n(6000, 120000)):
+        for _ in range(ctx.n(5000, 60000)):
             await one(gen_random(rnd), 'random')
         i, k = ctx.shard
         maxlen = 2 if ctx.quick else 3
